@@ -54,10 +54,22 @@ Definition meta_publish (r : realm) (mp : metapub) : realm * list out :=
 Definition meta_publish_all (r : realm) (mps : list metapub) : realm * list out :=
   fold_left (fun '((r, o) : realm * list out) mp => let '(r1, o1) := meta_publish r mp in (r1, o ++ o1)) mps (r, []).
 
-(** cleanSessionDetails (no transport details in this model) *)
+(** cleanSessionDetails: in strict mode only the standard items; in every mode
+    [transport.auth] is removed when it is a dict (the remaining transport
+    details stay) *)
 Definition std_items := ["session"; "authid"; "authrole"; "authmethod"; "authprovider"; "transport"].
+Definition strip_transport_auth (d : dict) : dict :=
+  match dget d "transport" with
+  | Some (VDict td) =>
+      match dget td "auth" with
+      | Some (VDict _) => dset d "transport" (VDict (ddel td "auth"))
+      | _ => d
+      end
+  | _ => d
+  end.
 Definition clean_details (cfg : config) (d : dict) : dict :=
-  if c_meta_strict cfg then filter (fun '((k, _) : string * value) => smem k std_items) d else d.
+  strip_transport_auth
+    (if c_meta_strict cfg then filter (fun '((k, _) : string * value) => smem k std_items) d else d).
 
 (** ** Session end (onLeave, not for realm shutdown) *)
 Definition test_pubs (ts : list testament) : list metapub :=
